@@ -1008,6 +1008,8 @@ def c14(chk):
     r = chk.mc("StateMetadata", "StateMetadata_%s.cfg" % chk.tier, workers=4, timeout=900, heap="4g")
     chk.replay(r["cases_file"], timeout=3000)
     chk.canary_cases(r["cases_file"], flip_metadata_case)
+    # beyond the list: where the packed bytes live -- the ledger life of a DID (IotaLedger.tla over a mock ledger)
+    extended_stage(chk, "IotaLedger", "LEDGER", ".ledger", canary=flip_ledger_case)
     chk.assumptions += ["documents that mention the placeholder DID are outside the property's domain and are not generated",
                         "ledger address fields of the metadata are excepted (they are never packed)"]
 
@@ -1085,6 +1087,20 @@ def flip_tfr_case(rows, k=3):
                 break
     if not out:
         raise ToolError("canary: no accepted updated credential")
+    return out
+
+
+def flip_ledger_case(rows, k=3):
+    out = []
+    for r in rows:
+        if r["op"]["name"] == "resolve" and r["res"].get("ok") and not r["res"].get("deactivated"):
+            r = json.loads(json.dumps(r))
+            r["res"]["version"] = r["res"]["version"] + 1        # claim that an older / other document is resolved
+            out.append(r)
+            if len(out) >= k:
+                break
+    if not out:
+        raise ToolError("canary: no successful resolution in the ledger table")
     return out
 
 
